@@ -547,11 +547,11 @@ theorem sim_rev_err : ∀ (m : Nat) (T : DTask), RevE m T := by
           exact DErr.now (by simp [doc, hfv, hvs, this, bind, Except.bind]) he
         · obtain ⟨dm, hdm, ms⟩ := getMacro_sim_rev hg hmc
           obtain ⟨hp, _, _, _⟩ := ms
-          rw [← hlook] at hvs hfv
+          rw [← hlook] at hvs hfv h
           exact DErr.now (by simp [doc, hfv, hvs, hdm, hp, h, bind, Except.bind]) he
         · obtain ⟨dm, hdm, ms⟩ := getMacro_sim_rev hg hmc
           obtain ⟨hp, hdw, hd1, hd2⟩ := ms
-          rw [← hlook] at hvs hfv
+          rw [← hlook] at hvs hfv hsc
           rw [hd1, hd2] at h
           have r := ih k hk (.dirs dm.dirs dm.target) (scope ++ loc) d (st.push scope) e h he hdw
             (by simp [St.push, hl]) (hg.of_same rfl rfl rfl) trivial
